@@ -297,13 +297,45 @@ def nontrivial(case):
     return len(xs) >= 3 and len(set(xs)) > 1
 
 
+# fixed value lists, rendered under every tag option x variable name x
+# order of asking x element kind (so that no option combination depends on
+# the random stream)
+FIXED = [
+    ('int', [3, 1, 2, 5]), ('int', [4, 4, 1]), ('int', [None, 2, 9, 7, 7]),
+    ('int', [6]), ('float', [2.5, -1.0, 7.25, 0.5, 3.0]),
+    ('str', ['b', 'A', 'c', 'B', 'a']),
+    ('str', ['Zeta', 'alpha', 'Beta', 'gamma']),
+    ('str', ['x', None, 'Y', 'z']), ('date', [5, 1, 9, 3]),
+    ('date', [2, None, 30, 11, 7]),
+]
+
+
+def fixed_cases():
+    for kind, vals in FIXED:
+        for opts in range(len(TAG_OPTS)):
+            for name in (0, 3, 4, 6):
+                for order in range(4):
+                    for mapping in (False, True):
+                        yield dict(kind=kind, vals=vals, mapping=mapping,
+                                   opts=opts, name=name, order=order)
+
+
 def plan(tier, seed):
     n = 1500 if tier == 'quick' else 10000
-    return [dict(seed=seed * 1000 + i, n=n) for i in range(16)]
+    return [dict(seed=seed * 1000 + i, n=n) for i in range(16)] + \
+        [dict(fixed=True, part=i) for i in range(4)]
 
 
 def run_shard(shard):
     acc = Acc(ID, sample_every=89)
+    if shard.get('fixed'):
+        for case in list(fixed_cases())[shard['part']::4]:
+            bad = check(case)
+            acc.case(case, nontrivial(case), klass='fixed:' + case['kind'],
+                     distinct_by_construction=True)
+            if bad:
+                acc.fail(bad[0] + ':fixed', case, bad[1])
+        return acc.result()
     strat = strategy()
 
     def one(case):
